@@ -269,7 +269,11 @@ pub fn generate(a: &Args) {
         let arith = if hl { &name[2..] } else { name };
         for i in 0..n8 {
             let (rows, n) = if i % 3 == 0 { random_forest(&mut rng, 5, 9) } else { random_code(&mut rng, i, 5, 9) };
-            let mut dec = match guarded(|| build(name, matrix(&rows, n)).expect("name")) { Ok(d) => d, Err(_) => continue };
+            // the 8-bit check rules fold their inputs in adjacency-list order and are not associative (table rounding,
+            // clamp at 0, first minimum): the model is given the rows in the order the matrix actually stores them
+            let hm = matrix(&rows, n);
+            let rows: Vec<Vec<usize>> = (0..hm.num_rows()).map(|r| hm.iter_row(r).copied().collect()).collect();
+            let mut dec = match guarded(|| build(name, hm.clone()).expect("name")) { Ok(d) => d, Err(_) => continue };
             for call in 0..3 {
                 let span = [12i64, 60, 130, 200][(i + call) % 4];
                 let x8: Vec<i64> = (0..n).map(|_| match (i + call) % 5 { 0 => *rng.pick(&[127i64, -127, 116, -116, 117, -117, 100, -100, 99, 0]), _ => rng.range(-span, span) }).collect();
